@@ -207,6 +207,7 @@ func c14ConcurrentHelpers(c *Ctx) {
 type c14ChildResult struct {
 	crashed  bool
 	timedOut bool
+	retried  bool // the first attempt timed out and the probe was run again alone
 	reason   string
 	alloc    uint64
 	ms       int64
@@ -215,7 +216,24 @@ type c14ChildResult struct {
 
 var c14ReResult = regexp.MustCompile(`RESULT msgs=(\d+) err=(true|false) alloc=(\d+) ms=(\d+)`)
 
+// c14RunChild runs the probe in a child process. A probe that does not finish in time is run once more (retries are
+// serialised among themselves) with three times the limit, before "timed out" is believed: on a loaded machine a 35 ms
+// child was once seen to exceed 60 s (thorough sweep, seed 44, load average above 40 — false alarm, DESIGN 9.4); a
+// parser that really hangs still times out the second time.
 func c14RunChild(input string, strict bool, maxStackMiB, asMiB int, timeout time.Duration) c14ChildResult {
+	res := c14RunChildOnce(input, strict, maxStackMiB, asMiB, timeout)
+	if res.timedOut {
+		c14ChildAlone.Lock()
+		defer c14ChildAlone.Unlock()
+		res = c14RunChildOnce(input, strict, maxStackMiB, asMiB, 3*timeout)
+		res.retried = true
+	}
+	return res
+}
+
+var c14ChildAlone sync.Mutex
+
+func c14RunChildOnce(input string, strict bool, maxStackMiB, asMiB int, timeout time.Duration) c14ChildResult {
 	exe, err := os.Executable()
 	if err != nil {
 		return c14ChildResult{crashed: true, reason: "cannot find own executable: " + err.Error()}
